@@ -5,6 +5,7 @@
 -/
 import DS.Proofs.CocLemmas
 import DS.Proofs.PoolLemmas
+import DS.Model.VMRun
 
 namespace DS.Props.C04
 open DS.Roll DS.Rng DS.Proofs
@@ -372,5 +373,40 @@ example : Chain (wodAdd 10) 3 [[10, 4, 10], [8, 10], [2]] :=
 example : total (cnt (wodSucc 8 true)) [[10, 4, 10], [8, 10], [2]] = 4 := by decide
 example : dcRoundValue 18 [18, 20, 13] = 10 := by decide
 example : dcRoundValue 18 [7, 17, 13] = 17 := by decide
+
+/-! ### nested pool terms (VM model) -/
+
+section nested
+open DS.VM
+
+/-- a pool term starts by putting the enclosing term's parameters aside (and taking the defaults) … -/
+theorem wodInit_saves (sub : SubRun) (g : G) (f : Frame) :
+    ∃ f', exec sub g f .wodInit = .next g f' ∧ f'.wodSaved = (f.wodPool, f.wodPoints, f.wodThreshold, f.wodGE) :: f.wodSaved ∧
+      f'.wodPool = 1 ∧ f'.wodPoints = 10 ∧ f'.wodThreshold = 8 ∧ f'.wodGE = true :=
+  by simp only [exec]; exact ⟨_, rfl, rfl, rfl, rfl, rfl, rfl⟩
+
+theorem push_keeps_pool_fields {f f' : Frame} {v : Val} (h : f.push v = .ok f') :
+    f'.wodPool = f.wodPool ∧ f'.wodPoints = f.wodPoints ∧ f'.wodThreshold = f.wodThreshold ∧ f'.wodGE = f.wodGE ∧ f'.wodSaved = f.wodSaved := by
+  unfold Frame.push at h
+  split at h
+  · simp at h; subst h; exact ⟨rfl, rfl, rfl, rfl, rfl⟩
+  · simp at h
+
+/-- … and whenever its roll completes, the enclosing term gets exactly those parameters back: a pool term nested in another
+    one's operand cannot leak its `m` / `k` / `q` (for every value on the stack, heap, random stream, budget) -/
+theorem diceWod_restores (sub : SubRun) (g g' : G) (f f' : Frame) (p q t : Int) (ge : Bool) (rest : List (Int × Int × Int × Bool))
+    (hs : f.wodSaved = (p, q, t, ge) :: rest) (h : exec sub g f .diceWod = .next g' f') :
+    f'.wodPool = p ∧ f'.wodPoints = q ∧ f'.wodThreshold = t ∧ f'.wodGE = ge ∧ f'.wodSaved = rest := by
+  simp only [exec] at h
+  split at h
+  · rename_i v f1 hp
+    have hs1 : f1.wodSaved = (p, q, t, ge) :: rest := by
+      unfold Frame.pop at hp; split at hp <;> simp at hp; obtain ⟨_, rfl⟩ := hp; exact hs
+    repeat' (first | split at h | (dsimp only at h))
+    all_goals (try (cases h))
+    all_goals (have hpf := push_keeps_pool_fields ‹Frame.push _ _ = Res.ok f'›; simp_all)
+  · cases h
+
+end nested
 
 end DS.Props.C04
